@@ -60,6 +60,11 @@ struct Wire {
     last_r_pending: bool,
     /// allow a Pending answer at all
     allow_pending: bool,
+    /// allow a write to be refused with a transient error (TimedOut): nothing of it was written, the caller
+    /// offers the bytes again
+    allow_error: bool,
+    last_w_error: bool,
+    errors_w: usize,
     /// observed (for the vacuity guard / classification)
     partial_accepts: usize,
     pendings_w: usize,
@@ -79,8 +84,15 @@ impl AsyncWrite for ChoiceStream {
         }
         // alternatives: 0 = accept all, 1..n-1 = accept k, n = Pending (if allowed and not twice in a row)
         let pend = w.allow_pending && !w.last_w_pending;
-        let alts = n + pend as usize;
-        let c = w.chooser.choose(alts, |c| if c < n { format!("write:accept {c} of {n}") } else { format!("write:pending at {n}-byte write") });
+        let err = w.allow_error && !w.last_w_error;
+        let alts = n + pend as usize + err as usize;
+        let c = w.chooser.choose(alts, |c| if c < n { format!("write:accept {c} of {n}") } else if c == n && pend { format!("write:pending at {n}-byte write") } else { format!("write:error at {n}-byte write") });
+        if c >= n && !(c == n && pend) {
+            w.last_w_error = true;
+            w.errors_w += 1;
+            return Poll::Ready(Err(std::io::Error::from(std::io::ErrorKind::TimedOut)));
+        }
+        w.last_w_error = false;
         if c == n {
             w.last_w_pending = true;
             w.pendings_w += 1;
@@ -215,6 +227,9 @@ fn run_once(s: &Scenario, prefix: &[usize]) -> RunOut {
         last_w_pending: false,
         last_r_pending: false,
         allow_pending: s.allow_pending,
+        allow_error: s.dir == "write_retry",
+        last_w_error: false,
+        errors_w: 0,
         partial_accepts: 0,
         pendings_w: 0,
         partial_reads: 0,
@@ -281,7 +296,7 @@ fn run_once(s: &Scenario, prefix: &[usize]) -> RunOut {
                 break;
             }
         }
-    } else if s.dir == "write" || s.dir == "write_vectored" {
+    } else if s.dir == "write" || s.dir == "write_vectored" || s.dir == "write_retry" {
         let reference = reference_stream(s, true);
         let mut expect_all: Vec<u8> = vec![];
         for (i, len) in s.msgs.iter().enumerate() {
@@ -307,6 +322,21 @@ fn run_once(s: &Scenario, prefix: &[usize]) -> RunOut {
                             return Err(std::io::Error::other("write_vectored reported 0 bytes"));
                         }
                         done += n;
+                    }
+                    stream.flush().await
+                })
+            } else if s.dir == "write_retry" {
+                // the transport may refuse a write with a transient error: nothing of it counts as written and
+                // the caller offers the rest again
+                drive(async {
+                    let mut done = 0usize;
+                    while done < m.len() {
+                        match stream.write(&m[done..]).await {
+                            Ok(0) => return Err(std::io::Error::other("write reported 0 bytes")),
+                            Ok(n) => done += n,
+                            Err(e) if e.kind() == std::io::ErrorKind::TimedOut => {}
+                            Err(e) => return Err(e),
+                        }
                     }
                     stream.flush().await
                 })
@@ -419,13 +449,16 @@ struct Counters {
 }
 
 fn classify(labels: &[String], s: &Scenario) -> String {
-    let side = if s.dir == "write" { "write" } else if s.dir == "write_vectored" { "write-vectored" } else if s.dir == "write_cancel" { "write-after-abandoned-write" } else { "read" };
+    let side = if s.dir == "write" { "write" } else if s.dir == "write_vectored" { "write-vectored" } else if s.dir == "write_retry" { "write-after-refused-write" } else if s.dir == "write_cancel" { "write-after-abandoned-write" } else { "read" };
     let mut kinds = vec![];
     if labels.iter().any(|l| l.contains("accept") || l.contains("deliver")) {
         kinds.push("partial");
     }
     if labels.iter().any(|l| l.contains("pending")) {
         kinds.push("pending");
+    }
+    if labels.iter().any(|l| l.contains("error")) {
+        kinds.push("error");
     }
     if kinds.is_empty() {
         kinds.push("default-schedule");
@@ -492,13 +525,16 @@ fn replay(cli: &Cli, case: &Value) -> ! {
 
 pub fn run(cli: Cli) -> ! {
     if let Some(case) = cli.replay.clone() {
-        replay(&cli, &case);
+        if case.get("connection").is_none() {
+            replay(&cli, &case);
+        }
+        println!("connection case {}: the sweep is re-run (cheap), which re-evaluates it", case["connection"]);
     }
     let rep = Report::new("C05", cli.tier, "model_checking");
     let thorough = cli.tier.thorough();
     let secrets = ["00000000000000000000000000000000", "ffffffffffffffffffffffffffffffff", &hex(b"verysecuresecret"), "000102030405060708090a0b0c0d0e0f"];
     let mut jobs: Vec<(Scenario, usize)> = vec![];
-    for dir in ["write", "write_cancel", "write_vectored", "read_exact", "read_take", "read_buf"] {
+    for dir in ["write", "write_cancel", "write_vectored", "write_retry", "read_exact", "read_take", "read_buf"] {
         for (si, sec) in secrets.iter().enumerate() {
             // complete exploration (every answer sequence, at most one Pending between progress steps)
             let small: Vec<Vec<usize>> = if thorough {
@@ -538,6 +574,38 @@ pub fn run(cli: Cli) -> ! {
         explore(&rep, &cn, s, vec![], 0, *bound);
     });
 
+    // The switch inside a whole connection (the anchor "encryption switched on between Encryption Response and
+    // Login Success"): the real Connection over the virtual transport, its peer a client model that encrypts and
+    // decrypts with the independent CFB8 as one continuous stream from the byte after its Encryption Response.
+    // The login must complete whether the client waits for Login Success before it goes on, sends everything
+    // behind the Encryption Response in the same burst, or the transport moves one byte at a time.
+    {
+        use crate::sim::{Case, Login, RunResult};
+        let mut cases: Vec<(&str, Case)> = vec![];
+        for (label, eager, one_byte) in [("lock-step", false, false), ("bursts", true, false), ("one-byte-transport", false, true), ("bursts-over-one-byte-transport", true, true)] {
+            let mut c = Case::default();
+            c.script = Login { eager, ..Default::default() }.steps();
+            if one_byte {
+                c.transport.read_chunk = Some(1);
+                c.transport.write_chunk = Some(1);
+            }
+            cases.push((label, c));
+        }
+        for (label, c) in cases {
+            let obs = crate::sim::run(&c);
+            cn.runs.fetch_add(1, Ordering::Relaxed);
+            let ok = obs.result == RunResult::Ok && obs.has("LoginSuccess") && obs.has("Transfer") && obs.garbled.is_none() && obs.partial_tail == 0 && obs.consumed == obs.emitted;
+            if !ok {
+                rep.violation(Violation {
+                    key: format!("connection:{label}"),
+                    text: format!("a whole login ({label}): result {:?}, clientbound {:?}, undecodable {:?}, {} of {} client bytes consumed - both directions must be one continuous CFB8 stream from the switch on", obs.result, obs.kinds(), obs.garbled, obs.consumed, obs.emitted),
+                    replay: json!({"connection": label}),
+                    weight: 5,
+                });
+            }
+        }
+    }
+
     // determinism: the first and the last job's default schedule replayed twice
     for (s, _) in [&jobs[0], &jobs[jobs.len() - 1]] {
         let a = run_once(s, &[1]);
@@ -563,6 +631,6 @@ pub fn run(cli: Cli) -> ! {
     rep.sample(json!({"scenario": jobs[0].0, "choices": [1], "meaning": "first transport call answered with its first non-default alternative"}));
     rep.sample(json!({"scenario": {"dir": "write", "msgs": [17, 5, 40], "switch": 1}, "choices": [0, 7, 0, 40], "meaning": "second write accepts 7 bytes, ... , last write Pending once"}));
     rep.assume("the raw AES-128 block function (aes crate) is shared with the implementation; CFB8 chaining, register handling and key=IV are re-implemented");
-    rep.assume("transport errors are not in the alphabet; Pending answers wake immediately");
+    rep.assume("of the transport errors only a transient refusal of a write (TimedOut, nothing written, the caller offers the bytes again) is in the alphabet; Pending answers wake immediately");
     rep.finish()
 }
